@@ -1166,10 +1166,18 @@ impl<T: Serialize + for<'de> Deserialize<'de> + Clone + PartialEq + Send + Sync 
         mac.update(&entry.transaction_id.to_le_bytes());
         mac.update(&entry.timestamp.to_le_bytes());
         mac.update(&[entry.transaction_type as u8]);
+        // Key and value are length-prefixed so that the tag binds the boundary
+        // between them (and distinguishes an absent value from an empty one)
+        mac.update(&(entry.key.len() as u64).to_le_bytes());
         mac.update(entry.key.as_bytes());
 
-        if let Some(ref value) = entry.value {
-            mac.update(value);
+        match entry.value {
+            Some(ref value) => {
+                mac.update(&[1u8]);
+                mac.update(&(value.len() as u64).to_le_bytes());
+                mac.update(value);
+            }
+            None => mac.update(&[0u8]),
         }
 
         Ok(mac.finalize().into_bytes().into())
